@@ -288,7 +288,7 @@ def cancel_aware(fi: FuncInfo, call: ast.Call, facts: FrozenSet[Fact]) -> Tuple[
         for h in handlers:
             if handler_catches_cancel(h):
                 return True, "r1: handler for %s" % "/".join(q.handler_names(h))
-    recv = q.receiver(call)
+    recv = q.receiver(call) or (q.unparse(call.func.value) if isinstance(call.func, ast.Attribute) and not any(isinstance(x, ast.Call) for x in ast.walk(call.func.value)) else None)
     if recv and canon_fact(ast.parse("%s.cancelled()" % recv, mode="eval").body, False) in facts:
         return True, "r2: under not %s.cancelled()" % recv
     return False, "CancelledError (a BaseException) escapes: no handler for it and no cancelled() test"
@@ -346,13 +346,17 @@ def check_outcome_reads(ck, rule: str, fi: FuncInfo, skip_created: bool = True) 
     in ``fi`` whose receiver is not a future created in ``fi``."""
     from .rules import event_created, event_facts
 
-    reads = own_find(fi, lambda x: isinstance(x, ast.Call) and isinstance(x.func, ast.Attribute) and x.func.attr in ("result", "exception") and not x.args and q.dotted(x.func.value) is not None)
+    def _recv(x):
+        return q.dotted(x.func.value) or q.unparse(x.func.value)
+
+    reads = own_find(fi, lambda x: isinstance(x, ast.Call) and isinstance(x.func, ast.Attribute) and x.func.attr in ("result", "exception") and not x.args and not x.keywords
+                     and not (isinstance(x.func.value, ast.Call) and q.call_attr(x.func.value) == "super"))
     if not reads:
         return 0
     created = event_created(fi)
     stable = stable_facts(fi.cfg, lambda t: t.endswith(".cancelled()"))
     # r3: an earlier read of the same future completed without raising
-    recvs = {q.dotted(c.func.value) for _, c in reads}
+    recvs = {_recv(c) for _, c in reads if q.dotted(c.func.value) is not None}
 
     def gen_for(r):
         return lambda nd: nd.ast is not None and nd.kind in ("stmt", "test") and not isinstance(nd.ast, q.ScopeNode) and any(
@@ -362,12 +366,12 @@ def check_outcome_reads(ck, rule: str, fi: FuncInfo, skip_created: bool = True) 
                      {"read:" + r: (lambda nd, r=r: nd.suspends or (nd.kind == "stmt" and isinstance(nd.ast, ast.stmt) and r.split(".")[0] in q.assigned_paths(nd.ast))) for r in recvs}, cond_facts=False)
     n = 0
     for nd, c in reads:
-        r = q.dotted(c.func.value)
+        r = _recv(c)
         if skip_created and ("@created:" + r, True) in created[nd.id]:
             continue
         n += 1
         ok, why = cancel_aware(fi, c, stable[nd.id])
-        if not ok and ("@read:" + r, True) in ev[nd.id]:
+        if not ok and q.dotted(c.func.value) is not None and ("@read:" + r, True) in ev[nd.id]:
             ok, why = True, "r3: an earlier outcome read of %s on every path already returned (not cancelled)" % r
         ck.ob(rule, fi, c, ok, "outcome read %s.%s() of a future this function did not create must be cancel-aware — %s" % (r, c.func.attr, why))
     return n
@@ -494,3 +498,24 @@ def in_cycle(cfg: CFG, node: Node, follow_exc: bool = False) -> bool:
         seen.add(x)
         st.extend(y for y, k in cfg.succ[x] if follow_exc or k != "exc")
     return False
+
+
+def callable_cfg(repo: Repo, fi: FuncInfo, e: ast.AST):
+    """CFG of what runs when the callable expression ``e`` is invoked: a nested def of ``fi`` (by name) or a lambda
+    (its body turned into statements, conditional expressions into if-statements).  None if unknown."""
+    from .cfg import build
+    if isinstance(e, ast.Name):
+        for nf in repo.nested(fi):
+            if nf.name == e.id and nf.parent is fi and isinstance(nf.node, q.FuncNode):
+                return nf.cfg
+        return None
+    if isinstance(e, ast.Lambda):
+        def stmts(x):
+            if isinstance(x, ast.IfExp):
+                return [ast.copy_location(ast.If(test=x.test, body=stmts(x.body), orelse=stmts(x.orelse)), x)]
+            return [ast.copy_location(ast.Expr(value=x), x)]
+        fn = ast.FunctionDef(name="<lambda>", args=e.args, body=stmts(e.body), decorator_list=[], returns=None, type_comment=None, type_params=[])
+        ast.copy_location(fn, e)
+        ast.fix_missing_locations(fn)
+        return build(fn)
+    return None
